@@ -25,38 +25,13 @@ func rulesC15(c *Ctx) {
 	R.Rule("R3", "state check: per-Y entry, SPENT/PENDING priority behind hits of that Y, witness of the matching row, resolve before answer", 9)
 	R.Rule("R4", "restore: per-message read by B_, skip exactly on no-rows, other errors fail, lock-step append of unmodified signatures; error wrapping visible to errors.Is", 7)
 	R.Rule("R5", "SQL statements agree with Go arguments and scan destinations", 25)
+	R.Rule("R8", "the Lightning adapters never report success by default (shared with C05.R3): a status returned with a nil error is an explicit constant, a zero-value answer comes only with an error - otherwise a time-out or unknown answer makes pending proofs read SPENT", 20)
 	R.Rule("R7", "proofs of a melt that settles later are moved from the pending to the spent table with all their fields (amount, id, secret, C, witness) taken from the pending row", 6)
 	R.Rule("R6", "restore returns nothing for outputs the mint refused: swap stores signatures only after the spent-table insert succeeded (shared with C01.R3)", 1)
 	c.vocabProblems("R1")
 	c.ruleSigsAfterSpent("R6")
 
-	// ---- R1
-	for _, path := range []string{"/v1/swap", "/v1/mint/{method}"} {
-		op := c.op("R1", path)
-		if op == nil {
-			continue
-		}
-		outputs := c.outputsOf("R1", op)
-		if outputs == "" {
-			continue
-		}
-		saved := c.condErrNilRole("signatures saved for the outputs' B_", roleSaveSigs, map[int]func(*Ex) bool{
-			1: func(e *Ex) bool {
-				return e != nil && e.K == "map" && exprIs(e.Args[0], outputs) && exprIs(e.Args[1], "elem("+outputs+").B_")
-			},
-			2: func(e *Ex) bool {
-				return e != nil && e.K == "call" && e.Idx == 0 && exprIs(arg(e, len(e.Args)-1), outputs)
-			},
-		})
-		for _, s := range c.signerSites(op) {
-			ok, why, n := c.AfterRequire(s.Instr, saved)
-			if n == 0 {
-				ok, why = false, "no success return after signing"
-			}
-			R.Check("R1", c.P.FuncKey(op), "success after signing <= signatures saved", c.P.InstrPos(s.Instr), ok,
-				"every success return after signing passes a successful save of (B_ of every output, the signatures just produced)", why)
-		}
-	}
+	c.ruleSigsSavedForOutputs("R1")
 
 	c.c15StateCheck()
 	c.c15Restore()
@@ -65,6 +40,8 @@ func rulesC15(c *Ctx) {
 	c.scanLocalsCopied("R5", "GetPendingProofs", map[string]string{"witness": "Witness"})
 	c.scanLocalsCopied("R5", "GetPendingProofsByQuote", map[string]string{"witness": "Witness"})
 	c.c15PendingToSpentKeepsFields()
+	c.runAs("R3", "R8", func(cc *Ctx) { cc.c05Backends() })
+	c.runAs("R9", "R8", func(cc *Ctx) { cc.ruleUnlockCallers("R9") })
 	c.readersReturnEveryRow("R5", "GetProofsUsed", "GetPendingProofs", "GetPendingProofsByQuote", "GetBlindSignatures")
 }
 
@@ -461,4 +438,39 @@ func (c *Ctx) c15Restore() {
 			}
 		}
 	}
+}
+
+// ruleSigsSavedForOutputs: swap and mint report success after signing only behind a successful save of the signatures
+// under exactly the B_ of every output, unmodified (C15.R1; shared with C06.R5: the duplicate and already-signed
+// checks compare those very strings, so a key stored under another form lets a request through that then fails on
+// the key after its inputs were spent).
+func (c *Ctx) ruleSigsSavedForOutputs(rule string) {
+	R := c.R
+	for _, path := range []string{"/v1/swap", "/v1/mint/{method}"} {
+		op := c.op(rule, path)
+		if op == nil {
+			continue
+		}
+		outputs := c.outputsOf(rule, op)
+		if outputs == "" {
+			continue
+		}
+		saved := c.condErrNilRole("signatures saved for the outputs' B_", roleSaveSigs, map[int]func(*Ex) bool{
+			1: func(e *Ex) bool {
+				return e != nil && e.K == "map" && exprIs(e.Args[0], outputs) && exprIs(e.Args[1], "elem("+outputs+").B_")
+			},
+			2: func(e *Ex) bool {
+				return e != nil && e.K == "call" && e.Idx == 0 && exprIs(arg(e, len(e.Args)-1), outputs)
+			},
+		})
+		for _, s := range c.signerSites(op) {
+			ok, why, n := c.AfterRequire(s.Instr, saved)
+			if n == 0 {
+				ok, why = false, "no success return after signing"
+			}
+			R.Check(rule, c.P.FuncKey(op), "success after signing <= signatures saved", c.P.InstrPos(s.Instr), ok,
+				"every success return after signing passes a successful save of (B_ of every output, the signatures just produced)", why)
+		}
+	}
+
 }
